@@ -379,6 +379,8 @@ reg("C15",
 reg("C16",
     H("c16", "c16_lemma_many1_complete", bounds="nom 7.1.3 many1(complete(p)) on a model parser with Copy output; buffer <= 8 B symbolic length (up to 8 elements)", funcs=["nom::multi::many1", "nom::combinator::complete"]),
     H("c16", "c16_lemma_many0_complete", bounds="nom 7.1.3 many0(complete(p)) on the same model parser; buffer <= 8 B", funcs=["nom::multi::many0", "nom::combinator::complete"]),
+    H("c16", "c16_many_empty_and_garbage_first_record", bounds="concrete inputs: empty buffer; one complete record of unknown content type (TLS and DTLS), one symbolic payload byte", funcs=["tls_parser_many", "parse_dtls_plaintext_records"], timeout=900, mem=16),
+    H("c16", "c16_many_record_cap", bounds="16700-byte zero buffer holding one application-data record with a symbolic 16-bit declared length", funcs=["tls_parser_many", "parse_tls_plaintext"], timeout=1200, mem=16),
     H("c16", "c16_tls_parser_is_parse_tls_plaintext", bounds="<= 10 B symbolic length, all bytes symbolic; content dispatcher stubbed for both", stubs=["parse_tls_record_with_header"], funcs=["tls_parser", "parse_tls_plaintext"]),
     )
 
@@ -496,6 +498,10 @@ reg("C01",
 
 # ------------------------------------------------------------------------------------------------ C18
 _C18_SETS = (("C02", ["c02_raw_small", "c02_plaintext_wiring"]),
+             ("C04", ["c04_server_hello_tls12_42", "c04_hello_retry_request", "c04_new_session_ticket", "c04_certificate_status"]),
+             ("C10", ["c10_record_header", "c10_hs_serverdone"]),
+             ("C11", ["c11_client_hello_version_ciphers_compressions", "c11_supported_groups", "c11_digitally_signed_algorithms"]),
+             ("C15", ["c15_client_hello_constructed"]),
              ("C03", ["c03_two_heartbeat", "c03_two_appdata", "c03_two_unknown_ff"]),
              ("C05", ["c05_dispatch_generic", "c05_content_sni_8", "c05_list_generic"]),
              ("C13", ["c13_dh_params", "c13_ec_parameters", "c13_digitally_signed"]))
